@@ -77,12 +77,9 @@ func BuildUnixFSFile(r io.Reader, chunker string, ls *ipld.LinkSystem) (ipld.Lin
 		if prev != nil && prev[0].link == next.link {
 			if next.link == nil {
 				node := basicnode.NewBytes([]byte{})
-				link, err := ls.Store(ipld.LinkContext{}, leafLinkProto, node)
-				if err != nil {
-					// Store reports the computed link even when the commit failed
-					return nil, 0, err
-				}
-				return link, 0, err
+				// measured like every other block: the raw codec of a link
+				// system need not be the identity
+				return sizedStore(ls, leafLinkProto, node)
 			}
 			return next.link, next.storedSize, nil
 		}
